@@ -196,7 +196,7 @@ def run_config(chk, facts):
             from_guard = False
             enter_bb = None
             sd = b.single_def(rl)
-            if sd is not None and hasattr(sd[2], "callee") and sd[2].callee.endswith("as std::ops::Try>::branch") \
+            if sd is not None and hasattr(sd[2], "callee") and sd[2].callee.endswith("as core::ops::try_trait::Try>::branch") \
                     and any(isinstance(e, list) and e[0] == "d" and e[2] == "Continue" for e in root[1]):
                 src = b.root_local(sd[2].args[0])
                 sd2 = b.single_def(src)
@@ -220,6 +220,16 @@ def run_config(chk, facts):
                 # same node continues: must pass the parameter decycler or an existing guard
                 pass
     chk.floor("C13-c", "guarded recursive calls (ColrLayers, ColrGlyph, root)", n_guarded, 3)
+    # a cycle / depth error from the decycler must surface as an error of the traversal (T-ERR)
+    from ..guards import result_fate
+    for b in (twc, paint):
+        for bb, t in b.calls():
+            if t.callee == ENTER:
+                fate = result_fate(b, bb)
+                chk.ob("C13-c", f"{b.path.split('::')[-1]} line {t.line}: Decycler::enter result is {sorted(fate)}",
+                       fate == {"propagated"}, key=f"{b.path}|enter-fate|{sorted(fate)}", file=b.file, line=t.line, fn=b.path,
+                       detail="a CycleDetected / DepthLimitExceeded from the decycler must be propagated with `?`; "
+                              "handling it locally turns a cyclic paint graph into a success")
 
     enter = chk.anchor("C13-c", ENTER, facts.body(ENTER))
     # enter: the write node_ids[depth] = id is dominated by depth < D true edge; Ok exit only after depth += 1
@@ -245,7 +255,7 @@ def run_config(chk, facts):
     chk.ob("C13-c", "Decycler::enter: every Ok is preceded by depth += 1",
            bool(incs) and bool(oks) and all(any(enter.dominates(i, o) for i in incs) for o in oks),
            key="enter|inc", file=enter.file, line=enter.lo, fn=enter.path)
-    drop = facts.find_bodies(r"^<skrifa::decycler::DecyclerGuard<'_, T, D> as std::ops::Drop>::drop$", "skrifa")
+    drop = facts.find_bodies(r"^<skrifa::decycler::DecyclerGuard<'_, T, D> as core::ops::drop::Drop>::drop$", "skrifa")
     chk.anchor("C13-c", "impl Drop for DecyclerGuard", drop)
     d = drop[0]
     dec = False
